@@ -400,7 +400,7 @@ def run_impl(scn):
     async def main():
         env = Env(scn['db'], scn_bearers(scn), scn.get('max_mtu', 517))
         model_db = env.model_db()
-        outs, escaped, mtus, stray, resolved, idx = [], [], [], [], [], []
+        outs, escaped, mtus, stray, resolved, idx, mtus_after = [], [], [], [], [], [], []
         for k, o in scn_ops(scn):
             before = len(env.sent)
             mtus.append(env.bearers[k].att_mtu)
@@ -413,6 +413,10 @@ def run_impl(scn):
                 e1 = env.deliver(b'\x1e', k)
                 e2 = env.deliver(b'\x1e', k)
                 esc = e1 or e2
+            elif o[0] == 'burst':
+                # several PDUs handed over before the event loop runs again
+                for hx in o[1]:
+                    esc = env.deliver(bytes.fromhex(hx), k) or esc
             elif o[0] in ('notify', 'indicate'):
                 a = env.attribute(o[1])
                 v = None if o[2] is None else bytes.fromhex(o[2])
@@ -429,8 +433,9 @@ def run_impl(scn):
             escaped.append(esc)
             resolved.append(o)
             idx.append(k)
+            mtus_after.append(env.bearers[k].att_mtu)
         res = {'outs': outs, 'escaped': escaped, 'stray': stray, 'values': [v.hex() for v in env.values()],
-               'mtu': env.bearers[0].att_mtu, 'final_mtus': [b.att_mtu for b in env.bearers], 'mtus': mtus,
+               'mtu': env.bearers[0].att_mtu, 'final_mtus': [b.att_mtu for b in env.bearers], 'mtus': mtus, 'mtus_after': mtus_after,
                'db': model_db, 'ops': resolved, 'op_bearer': idx}
         for t in env.tasks:
             t.cancel()
@@ -507,6 +512,8 @@ def coq_op(o, model_db=None):
         return f'Rx {coq_z(p[0])} {coq_params(p[1:])}'
     if o[0] == 'rx2c':
         return 'RxConfirm2'
+    if o[0] == 'burst':
+        return 'Burst [' + '; '.join(f'({coq_z(p[0])}, {coq_params(p[1:])})' for p in map(bytes.fromhex, o[1])) + ']'
     if o[0] == 'notify':
         return f'Notify {coq_z(o[1])} {coq_optbytes(o[2])} {coq_bool(o[3])}'
     if o[0] == 'indicate':
@@ -517,8 +524,13 @@ def coq_op(o, model_db=None):
 def coq_scenario(model_db, scn):
     """closed Coq term: (outputs per op, final values, final mtu)"""
     db = coq_list(model_db, coq_attr)
-    ops = coq_list(scn['ops'], lambda o: coq_op(o, model_db))
-    return (f"let r := run (init {db} {coq_bearer(scn['bearer'])} {coq_z(scn.get('max_mtu', 517))}) {ops} in "
+    if any(o[0] == 'burst' for o in scn['ops']):
+        ops = coq_list(scn['ops'], lambda o: coq_op(o, model_db) if o[0] == 'burst' else f'Single ({coq_op(o, model_db)})')
+        runner = 'brun'
+    else:
+        ops = coq_list(scn['ops'], lambda o: coq_op(o, model_db))
+        runner = 'run'
+    return (f"let r := {runner} (init {db} {coq_bearer(scn['bearer'])} {coq_z(scn.get('max_mtu', 517))}) {ops} in "
             f"(opt_out r, final_values r, final_mtu r)")
 
 
